@@ -17,7 +17,7 @@ LEVEL_TEXT = ("Coq theorems over Gallina models of DnsRecordExt::compare / compa
               "reach opposite verdicts (a proper prefix loses by the length rule); the loser and only the loser restarts at "
               "now + 1000, only after its probe started; renaming is characterised on all byte strings ('x' -> 'x (2)', "
               "'x (n)' -> 'x (n+1)', 'h' -> 'h-2' -> 'h-3', the u32::MAX case), splits at the first unescaped dot and, for "
-              "EVERY input, puts at most 63 bytes in front of it (C08_still_encodable); announcements, goodbyes and direct "
+              "EVERY input, leaves a first label of at most 63 bytes in front of it (C08_still_encodable); announcements, goodbyes and direct "
               "answers carry the current names. The functions are tied to the Rust by differential runs through the facade, "
               "the daemon-level behaviour (rename, NameChange, re-probe, packets afterwards, the one-second deferral after a "
               "lost tie-break, two and three daemons on a loss-free link) by the simulated daemon, with chk_C08 as monitor")
@@ -50,10 +50,10 @@ PARTIAL = ("'Two daemons ... always end with exactly one holding the original na
            "proved: the theorems are about the decision rules. Probe::tiebreaking has no facade entry; it is exercised "
            "through the simulated daemon (competing probe queries) and judged by chk_C08 against the specification's "
            "tb_cmp: after a lost comparison no probe query for the name within a second. That chk_C08 accepts every run of "
-           "the daemon model is validated (monitor on the model's own output), not proved. 'Still encodable' is proved as a "
-           "bound of 63 bytes of label text in front of the first unescaped dot for every input; that the text's escapes "
-           "stay well-formed (the wire label is then no longer) is checked by the executable rename_ok on every generated "
-           "name, not proved. Findings (known/C08.json): conflicts are never detected for instance names with an escaped "
+           "the daemon model is validated (monitor on the model's own output), not proved. 'Still encodable' is proved for "
+           "every input (C08_still_encodable: rest kept, first label of the result at most 63 bytes); that a rename yields "
+           "a name different from the original is checked by the executable rename_ok on every generated name, not "
+           "proved. Findings (known/C08.json): conflicts are never detected for instance names with an escaped "
            "dot; a host rename within a second after a lost tie-break restarts the instance name's probe early")
 
 KNOWN = {30: "C08-host-rename-cancels-tiebreak-deferral"}
